@@ -103,7 +103,9 @@ def tls_conn(draw, combos=None, max_records=12, max_len=2000, delivery=None, ep=
             spec["cert_len"] = draw(st.sampled_from([300, 1200, 3000, 9000, 17000]))
         if draw(st.integers(0, 3)) == 0:
             # record boundaries at / inside the 4-byte header of a message, or a few bytes into its body
-            spec["hs_cuts"] = draw(st.lists(st.tuples(st.integers(0, 5), st.sampled_from([0, 1, 2, 3, 4, 5, 9])).map(list), min_size=1, max_size=3))
+            spec["hs_cuts"] = draw(st.lists(st.tuples(st.integers(0, 5), st.sampled_from([0, 1, 2, 3, 4, 5, 9, 40])).map(list), min_size=1, max_size=3))
+        if spec["hs_frag"] or spec.get("hs_cuts"):
+            spec["hs_cont"] = draw(st.sampled_from([None, None, 1, 2, 1, 2, 4, 11, 20, 22, 23]))
         if ver == tlsref.TLS13:
             spec["hs_secrets"] = draw(st.booleans())
             spec["ccs13"] = draw(st.booleans())
@@ -116,6 +118,7 @@ def tls_conn(draw, combos=None, max_records=12, max_len=2000, delivery=None, ep=
         else:
             spec["tickets"] = draw(st.integers(0, 1))
             spec["ske"] = draw(st.booleans())
+            spec["ch_comp"] = draw(st.sampled_from([False, False, False, True]))      # DEFLATE offered, null selected
             if ver != tlsref.SSL30:
                 spec["sh_ext"] = draw(st.sampled_from(["block", "block", "empty", "none"]))
                 if spec["sh_ext"] == "block":
